@@ -150,7 +150,8 @@ func strs(v []string) []string {
 //
 // case {kind:"shapes", g (tree with exact ordinates), d}: every literal of the WKT text and of the GeoJSON document with
 //
-//	a bounding box (options in both orders), next to the exact ordinates.
+//	a bounding box (options in both orders), next to the exact ordinates; plus the arity of the box written without a
+//	digit limit and the coordinates written without a box.
 func digitsHandler(raw json.RawMessage) map[string]any {
 	var c struct {
 		Kind string
@@ -211,6 +212,18 @@ func digitsHandler(raw json.RawMessage) map[string]any {
 			}
 		}
 		out["outs"] = outs
+		// what the same encoder writes with a bounding box and WITHOUT a digit limit (the reference for "unchanged")
+		ref := map[string]any{"err": "", "json": []any{"x", "not encoded"}}
+		if ev, msg := call(func() {
+			b, err := geojson.Marshal(g, geojson.EncodeGeometryWithBBox())
+			ref["err"] = errStr(err)
+			if err == nil {
+				ref["json"] = taggedOfBytes(b)
+			}
+		}); ev != "ok" {
+			ref["err"] = "panic: " + msg
+		}
+		out["ref"] = ref
 	case "shapes":
 		// a geometry whose ordinates are exact float64 values: every number literal of the WKT text and of the GeoJSON
 		// document (bounding box requested, the two options in either order), in document order, next to the exact
@@ -250,6 +263,44 @@ func digitsHandler(raw json.RawMessage) map[string]any {
 			gj = append(gj, o)
 		}
 		out["gj"] = gj
+		// references: the bounding box written WITHOUT a digit limit (its arity, or the error), and the coordinates written
+		// with the digit limit but without a bounding box
+		ref := map[string]any{"err": "", "nbbox": -1}
+		if ev, msg := call(func() {
+			b, err := geojson.Marshal(g, geojson.EncodeGeometryWithBBox())
+			var members map[string]json.RawMessage
+			if err == nil {
+				err = json.Unmarshal(b, &members)
+			}
+			if err != nil {
+				ref["err"] = errStr(err)
+				return
+			}
+			ref["nbbox"] = len(numLits(members["bbox"]))
+		}); ev != "ok" {
+			ref["err"] = "panic: " + msg
+		}
+		out["ref"] = ref
+		plain := map[string]any{"err": "", "coords": []string{}}
+		if ev, msg := call(func() {
+			b, err := geojson.Marshal(g, geojson.EncodeGeometryWithMaxDecimalDigits(c.D))
+			var members map[string]json.RawMessage
+			if err == nil {
+				err = json.Unmarshal(b, &members)
+			}
+			if err != nil {
+				plain["err"] = errStr(err)
+				return
+			}
+			if raw, ok := members["coordinates"]; ok {
+				plain["coords"] = strs(numLits(raw))
+			} else {
+				plain["coords"] = strs(numLits(members["geometries"]))
+			}
+		}); ev != "ok" {
+			plain["err"] = "panic: " + msg
+		}
+		out["plain"] = plain
 	case "nums":
 		rows := []any{}
 		for i, v := range c.Vals {
